@@ -48,6 +48,12 @@ class HList:
     def __init__(self, items=()):
         self.items = list(items)
 
+    def __bool__(self):
+        # native truth value (reached only through bool()/to_bool): decided, or refused - never the default `True` of a plain object
+        if any(isinstance(x, Seg) for x in self.items):
+            raise Unsupported("native truth value of a list that holds an arbitrary segment")
+        return len(self.items) > 0
+
     def __repr__(self):
         return f"HList({self.items})"
 
@@ -79,6 +85,11 @@ class HDict:
     def __init__(self, items=None, present=None):
         self.items = dict(items or {})
         self.present = dict(present or {k: True for k in self.items})
+
+    def __bool__(self):
+        if any(p is not True for p in self.present.values()):
+            raise Unsupported("native truth value of a dict with symbolic key presence")
+        return len(self.items) > 0
 
     def __repr__(self):
         return f"HDict({self.items})"
@@ -407,7 +418,7 @@ class Engine:
         pass
 
     def s_Assert(self, st):
-        c = to_bool(self.eval(st.test))
+        c = self.cond(self.eval(st.test))
         self.do_raise(AssertionError, (), znot(c) if not isinstance(c, bool) else (not c), where=f"assert line {st.lineno}")
 
     def s_Assign(self, st):
@@ -518,7 +529,7 @@ class Engine:
         return k
 
     def s_If(self, st):
-        c = to_bool(self.eval(st.test))
+        c = self.cond(self.eval(st.test))
         if isinstance(c, bool):
             self.exec_block(st.body if c else st.orelse)
             return
@@ -668,7 +679,7 @@ class Engine:
             try:
                 while True:
                     lp["continued"] = False
-                    c = to_bool(self.eval(st.test))
+                    c = self.cond(self.eval(st.test))
                     if c is False:
                         break
                     if c is not True:
@@ -718,7 +729,7 @@ class Engine:
             f.env[name] = SStr((self.fresh(name, "str"),)) if sort == "str" else self.fresh(name, sort)
             f.defcond.pop(name, None)
         self.pc.append(zbool(lc["inv"](self, f.env)))
-        g = to_bool(self.eval(st.test))
+        g = self.cond(self.eval(st.test))
         if idx == 0:
             # arbitrary iteration
             self.pc.append(zbool(g))
